@@ -22,7 +22,58 @@ const (
 	SlashNone = iota
 	SlashIgnore
 	SlashRedirect
+	// explicit option lists (route options are applied in order; enabling one mode disables the other,
+	// disabling one leaves the other as it is):
+	SlashIgnoreThenRedirectOff // WithIgnoreTrailingSlash(true), WithRedirectTrailingSlash(false): ignores
+	SlashRedirectThenIgnoreOff // WithRedirectTrailingSlash(true), WithIgnoreTrailingSlash(false): redirects
+	SlashBothOff               // WithIgnoreTrailingSlash(false), WithRedirectTrailingSlash(false): neither, whatever the router-wide mode
+	SlashRedirectOff           // WithRedirectTrailingSlash(false): a router-wide ignore mode stays, a router-wide redirect mode is switched off
+	SlashIgnoreOff             // WithIgnoreTrailingSlash(false): a router-wide redirect mode stays, a router-wide ignore mode is switched off
+	NSlashKinds
 )
+
+type slashOpt struct {
+	ignore bool // which option: WithIgnoreTrailingSlash (true) or WithRedirectTrailingSlash (false)
+	val    bool
+}
+
+var slashOptLists = [NSlashKinds][]slashOpt{
+	SlashIgnore:                {{true, true}},
+	SlashRedirect:              {{false, true}},
+	SlashIgnoreThenRedirectOff: {{true, true}, {false, false}},
+	SlashRedirectThenIgnoreOff: {{false, true}, {true, false}},
+	SlashBothOff:               {{true, false}, {false, false}},
+	SlashRedirectOff:           {{false, false}},
+	SlashIgnoreOff:             {{true, false}},
+}
+
+var slashKindNames = [NSlashKinds]string{"", " [ignore]", " [redirect]", " [ignore(true),redirect(false)]", " [redirect(true),ignore(false)]", " [ignore(false),redirect(false)]", " [redirect(false)]", " [ignore(false)]"}
+
+// EffectiveSlash folds the route's option list over the router-wide mode and returns SlashNone,
+// SlashIgnore or SlashRedirect.
+func EffectiveSlash(kind, profSlash int) int {
+	ig, rd := profSlash == SlashIgnore, profSlash == SlashRedirect
+	for _, o := range slashOptLists[kind] {
+		if o.ignore {
+			ig = o.val
+			if o.val {
+				rd = false
+			}
+		} else {
+			rd = o.val
+			if o.val {
+				ig = false
+			}
+		}
+	}
+	switch {
+	case ig:
+		return SlashIgnore
+	case rd:
+		return SlashRedirect
+	}
+	return SlashNone
+}
 
 // RouteSpec is one route of a set.
 type RouteSpec struct {
@@ -32,14 +83,7 @@ type RouteSpec struct {
 }
 
 func (r RouteSpec) String() string {
-	s := r.Method + " " + r.Pattern
-	switch r.Slash {
-	case SlashIgnore:
-		s += " [ignore]"
-	case SlashRedirect:
-		s += " [redirect]"
-	}
-	return s
+	return r.Method + " " + r.Pattern + slashKindNames[r.Slash]
 }
 
 // Profile is a router-wide option profile.
@@ -209,18 +253,49 @@ func (e *Env) Handler(i int) fox.HandlerFunc {
 		e.Cap.RouteNil = c.Route() == nil
 		e.Cap.Scope = c.Scope()
 		e.reenter(c, e.Cap.Params, e.Cap.Pattern, e.Cap.RouteNil, e.Cap.Scope)
+		if len(e.Cap.Params) > 0 {
+			e.Cap.Params = append(e.Cap.Params, wrappedDisagreement(c, e.Cap.Params)...)
+		}
 		c.Writer().WriteHeader(200)
 	}
+}
+
+// wrappedDisagreement runs a net/http handler through the WrapF adapter on the same context: the parameters
+// it finds in its request context (ParamsFromContext) must be the ones the fox handler read. A disagreement
+// is returned as a pseudo-parameter, so that every comparison with the expected list reports it.
+func wrappedDisagreement(c fox.Context, want []ref.KV) (extra []ref.KV) {
+	ran := false
+	fox.WrapF(func(w http.ResponseWriter, r *http.Request) {
+		ran = true
+		ps := fox.ParamsFromContext(r.Context())
+		var got []ref.KV
+		for _, p := range ps {
+			got = append(got, ref.KV{K: p.Key, V: p.Value})
+		}
+		if !SameKV(got, want) {
+			extra = append(extra, ref.KV{K: "wrapped!ParamsFromContext", V: KVString(got)})
+		} else if v := ps.Get(want[0].K); v != want[0].V {
+			extra = append(extra, ref.KV{K: "wrapped!Params.Get(" + want[0].K + ")", V: v})
+		}
+		if r.URL != c.Request().URL || r.Method != c.Request().Method || r.Host != c.Request().Host {
+			extra = append(extra, ref.KV{K: "wrapped!request", V: r.Method + " " + r.Host + r.URL.String()})
+		}
+	})(c)
+	if !ran {
+		extra = append(extra, ref.KV{K: "wrapped!not-run", V: ""})
+	}
+	return extra
 }
 
 // RouteOpts returns the fox options for a spec (route id annotation + slash option).
 func RouteOpts(i int, s RouteSpec) []fox.RouteOption {
 	o := []fox.RouteOption{fox.WithAnnotation(fox.VerifRouteID{}, i+1)}
-	switch s.Slash {
-	case SlashIgnore:
-		o = append(o, fox.WithIgnoreTrailingSlash(true))
-	case SlashRedirect:
-		o = append(o, fox.WithRedirectTrailingSlash(true))
+	for _, so := range slashOptLists[s.Slash] {
+		if so.ignore {
+			o = append(o, fox.WithIgnoreTrailingSlash(so.val))
+		} else {
+			o = append(o, fox.WithRedirectTrailingSlash(so.val))
+		}
 	}
 	return o
 }
@@ -234,6 +309,30 @@ func Build(set []RouteSpec, prof Profile) (*Env, error) {
 		rt, err := e.F.Handle(s.Method, s.Pattern, e.Handler(i), RouteOpts(i, s)...)
 		if err != nil {
 			return nil, fmt.Errorf("route %d (%s): %w", i, s, err)
+		}
+		e.Routes = append(e.Routes, rt)
+	}
+	e.BuildRef()
+	return e, nil
+}
+
+// BuildViaUpdate registers every route of set with another handler and another trailing-slash option first,
+// then replaces each with Update by the route the spec describes: the router must behave exactly as if the
+// set had been registered directly.
+func BuildViaUpdate(set []RouteSpec, prof Profile) (*Env, error) {
+	e := NewEnv(prof)
+	e.Set = set
+	for i, s := range set {
+		other := s
+		other.Slash = (EffectiveSlash(s.Slash, SlashNone) + 1) % 3
+		if _, err := e.F.Handle(s.Method, s.Pattern, e.Handler(len(set)+i), RouteOpts(len(set)+i, other)...); err != nil {
+			return nil, fmt.Errorf("route %d (%s): %w", i, s, err)
+		}
+	}
+	for i, s := range set {
+		rt, err := e.F.Update(s.Method, s.Pattern, e.Handler(i), RouteOpts(i, s)...)
+		if err != nil {
+			return nil, fmt.Errorf("update of route %d (%s): %w", i, s, err)
 		}
 		e.Routes = append(e.Routes, rt)
 	}
@@ -362,10 +461,7 @@ func (e *Env) BuildRef() {
 	e.Methods = nil
 	by := map[string][]*ref.RRoute{}
 	for i, s := range e.Set {
-		slash := s.Slash
-		if slash == SlashNone {
-			slash = e.Prof.Slash
-		}
+		slash := EffectiveSlash(s.Slash, e.Prof.Slash)
 		rr := &ref.RRoute{Pat: ref.MustParse(s.Pattern), ID: i + 1, Ignore: slash == SlashIgnore, Redir: slash == SlashRedirect}
 		e.RRoutes = append(e.RRoutes, rr)
 		e.Single = append(e.Single, ref.NewMatcher([]*ref.RRoute{rr}))
